@@ -32,7 +32,7 @@ META = {
 
 @st.composite
 def milps(draw, tier="quick"):
-    family = draw(st.sampled_from(["uniform", "uniform", "binary-explicit", "binary-implicit", "trap", "unboxed", "parallel-objective", "parallel-objective", "binary-knapsack", "binary-knapsack"]))
+    family = draw(st.sampled_from(["uniform", "uniform", "binary-explicit", "binary-explicit", "binary-implicit", "trap", "mixed-trap", "unboxed", "parallel-objective", "parallel-objective", "binary-knapsack", "binary-knapsack"]))
     if os.environ.get("C04_FAMILY"):  # experiments only: measure one family's hit rate against a seeded change
         family = os.environ["C04_FAMILY"]
     minimize = draw(st.booleans())
@@ -62,6 +62,29 @@ def milps(draw, tier="quick"):
             b.append(2 * U * n + draw(st.integers(0, 3)))
         integers = list(range(n)) if draw(st.booleans()) else [0, 1]
         # the family is a maximisation; present it as min of -c half of the time
+        if minimize:
+            c = [-v for v in c]
+    elif family == "mixed-trap":
+        # the trap with a CONTINUOUS second variable: max c1 x1 + c2 y, a1 x1 + a2 y <= b, x1 <= 1 (explicit row), x1 integer,
+        # a1 > b > a2, c1/a1 > c2/a2: the root LP takes x1 = b/a1 in (0,1) and y = 0 (so the instance "looks binary"),
+        # the optimum is x1 = 0, y = b/a2 > 1 - a continuous coordinate above 1 in an instance with explicit binary rows
+        a2 = draw(st.integers(1, 3))
+        bb = draw(st.integers(a2 + 1, 3 * a2 + 2))
+        a1 = bb + draw(st.integers(1, 4))
+        c2 = draw(st.integers(1, 4))
+        c1 = (c2 * a1) // a2 + draw(st.integers(1, 3))
+        extra = draw(st.integers(0, 2))
+        n = 2 + extra
+        c = [c1, c2] + [draw(st.integers(0, 1)) for _ in range(extra)]
+        A = [[a1, a2] + [draw(st.integers(0, 2)) for _ in range(extra)]]
+        b = [bb]
+        integers = [0] + [j for j in range(2, n) if draw(st.booleans())]
+        for j in range(n):
+            A.append([1 if k == j else 0 for k in range(n)])
+            b.append(1 if j in integers else draw(st.integers(2, 6)))
+        for _ in range(draw(st.integers(0, 2))):  # slack rows that do not cut anything
+            A.append([draw(st.integers(0, 2)) for _ in range(n)])
+            b.append(12 * n + draw(st.integers(0, 3)))
         if minimize:
             c = [-v for v in c]
     elif family == "parallel-objective":
@@ -114,9 +137,14 @@ def milps(draw, tier="quick"):
                 A.append([1 if k == j else 0 for k in range(n)])
                 b.append(U)
         elif family == "binary-explicit":
+            # half of the cases bound only the integer variables by 1; continuous ones get a wider bound (or the
+            # bound 1 as well), so that a continuous coordinate of the optimum can exceed 1 in a "binary" instance
+            mixed = draw(st.booleans())
+            if mixed and n >= 2 and len(integers) == n:
+                integers.remove(draw(st.integers(0, n - 1)))
             for j in range(n):
                 A.append([1 if k == j else 0 for k in range(n)])
-                b.append(1)
+                b.append(1 if (j in integers or not mixed) else draw(st.sampled_from([2, 3, 5])))
         elif family == "binary-implicit":
             # rows with positive coefficients and small rhs keep the relaxation near [0,1] without explicit x<=1 rows
             for j in range(n):
